@@ -30,6 +30,9 @@ U = [('undo-last',)]
 SR = [('sload', 'x'), ('sload', 'y'), ('sload', 'x'), ('sload', 'y'),
       ('sload', 'x')]
 PACKNOW = [('pack', 'now')]
+# an undo log long enough to be scanned in several batches (the storage lock
+# is released between batches of 20 transactions)
+UL = [('undolog',)]
 
 HARNESSES = {
     'pack+writer2': [PACK, W2],
@@ -41,24 +44,27 @@ HARNESSES = {
     'pack+storage-reader': [PACK, SR],
     'pack+pack+pack': [PACK, PACK, PACK],
     'packnow+writer2': [PACKNOW, W2],
+    'long:packnow+undolog': [PACKNOW, UL],
     'packnow+writer+storage-reader': [PACKNOW, W1, SR],
 }
 
 
-def setup(kind='F', bufsize=8192):
-    """DB with x,y; three more transactions; pack time after the second."""
+def setup(kind='F', bufsize=8192, extra=0):
+    """DB with x,y; three more transactions (after `extra` earlier ones);
+    pack time after the second."""
     import transaction
     w = dbworld.DBWorld(kind, record=True, bufsize=bufsize)
     tm = transaction.TransactionManager()
     c = w.db.open(tm)
     r = c.root()
-    for name in ('x', 'y', 'x'):
+    for name in ('x', 'y') * (extra // 2) + ('x', 'y', 'x'):
         env.CLOCK.now += 1
         o = r[name]
         o.base = o._p_serial
         o.v = w.newval()
         tm.commit()
         if name == 'y':
+            # (the last time round:)
             w.T = env.CLOCK.now     # after t(x), t(y); before the last
             w.Ttid = r[name]._p_serial
     c.close()
@@ -80,6 +86,17 @@ class Prog08(dbworld.Prog):
                 w.log('pack-failed', self.tid, type(e).__name__,
                       str(e)[:80])
                 iolog.LOG.mark('pack-failed', self.tid)
+            return
+        if st[0] == 'undolog':
+            UE = env.mod('ZODB.POSException').UndoError
+            try:
+                log = w.storage.undoLog(0, 1000)
+                w.log('undolog', self.tid, tuple(d['id'] for d in log))
+            except UE:
+                w.log('undolog-refused', self.tid)      # pack in progress
+            except Exception as e:      # noqa: B902
+                w.log('undolog-error', self.tid, type(e).__name__,
+                      str(e)[:80])
             return
         if st[0] == 'sload':
             # a storage-level reader: every load goes to the file
@@ -233,7 +250,8 @@ def run_one(cfg, choices):
         return blob_run_one(cfg, choices)
     sched.install_locks()
     iolog.READS[0] = True
-    w = setup(cfg.get('kind', 'F'), cfg.get('bufsize', 8192))
+    w = setup(cfg.get('kind', 'F'), cfg.get('bufsize', 8192),
+              extra=22 if cfg['name'].startswith('long:') else 0)
     # the packer proper runs after the request was admitted: two threads
     # inside it at once means a concurrent pack was not refused
     orig_packer = w.storage.packer
@@ -292,7 +310,7 @@ def judge(cfg, S, w):
         return blob_judge(cfg, S, w)
     from checks import c02_snapshot, c03_lostupdate
     viol = []
-    if cfg['name'].startswith('packnow'):
+    if 'packnow' in cfg['name']:
         # pack to "now": everything prepared is at or before the pack time
         w.Ttid = max(t for rl in xy_revs(w, w.revs0).values()
                      for t, _ in rl)
@@ -313,6 +331,12 @@ def judge(cfg, S, w):
         v3 = []         # an undo restores an older state on purpose
     viol += [(c, 'writer:' + s, d) for c, s, d in v3 if c != 'error']
     evs = [e[0] for e in w.events]
+    # a long undo log: an answer (distinct ids) or the refusal
+    for e in w.events:
+        if e[0] == 'undolog-error':
+            viol.append(('error', 'undolog:%s' % e[2], dict(event=e)))
+        elif e[0] == 'undolog' and len(set(e[2])) != len(e[2]):
+            viol.append(('error', 'undolog:duplicates', dict(event=e)))
     # a pack that fails: only the second concurrent pack may be refused
     packs = [e for e in w.events if e[0] in ('pack-done', 'pack-failed')]
     failed = [e for e in packs if e[0] == 'pack-failed']
@@ -659,6 +683,8 @@ def run(rep, tier, seed, workers):
     for name in HARNESSES:
         three = len(HARNESSES[name]) == 3
         b = bound - 1 if three else bound
+        if name.startswith('long:'):
+            b = 1 if tier == 'quick' else 2     # 25 transactions to pack
         plan.append((dict(prop='C08', name=name), b))
         rep.bounds['%s preemptions' % name] = b
     # buffers smaller than a transaction: read-ahead and partial flushes
